@@ -60,6 +60,51 @@ def install_probe(events):
         wrap(ph, "phase")
 
 
+def install_listing(mode):
+    """The order in which a directory lists its entries is a property of the file system (creation order on tmpfs, name
+    hash on ext4, ...), not of the input.  This harness-side shim makes it an explicit environment factor: os.scandir and
+    os.listdir (what pathlib's glob / iterdir and os.walk are built on) return their entries in the chosen permutation."""
+    real_scandir, real_listdir = os.scandir, os.listdir
+
+    def permute(items, key):
+        items = sorted(items, key=key)
+        if mode == "reverse":
+            return items[::-1]
+        if mode == "rotate":
+            return items[1:] + items[:1]
+        if mode == "swapcase":          # byte order of the names with upper and lower case exchanged
+            return sorted(items, key=lambda x: key(x).swapcase())
+        return items
+
+    class _Scan:
+        def __init__(self, path):
+            with real_scandir(path) as it:
+                self._items = permute(list(it), lambda e: e.name if isinstance(e.name, str) else os.fsdecode(e.name))
+            self._iter = iter(self._items)
+
+        def __iter__(self):
+            return self
+
+        def __next__(self):
+            return next(self._iter)
+
+        def __enter__(self):
+            return self
+
+        def __exit__(self, *a):
+            return False
+
+        def close(self):
+            pass
+
+    def scandir(path="."):
+        return _Scan(path)
+
+    def listdir(path="."):
+        return permute(real_listdir(path), lambda n: n if isinstance(n, str) else os.fsdecode(n))
+    os.scandir, os.listdir = scandir, listdir
+
+
 def main():
     jobdir = os.path.abspath(sys.argv[1])
     strategy = "client"
@@ -100,6 +145,8 @@ def main():
         sys.addaudithook(hook)
     if probe:
         install_probe(events)
+    if os.environ.get("VERIF_LISTING"):
+        install_listing(os.environ["VERIF_LISTING"])
     if os.environ.get("VERIF_PROBE_HTTPX"):
         import httpx
         _real_post = httpx.post
